@@ -134,7 +134,7 @@ pub fn run(tier: &str) -> Result<Report, String> {
     for b in nets.iter().filter(|b| which.contains(&b.name.as_str())) {
         let fams = crate::sweep::label_families(b, 1);
         let ctx = NetCtx::new(b.clone(), fams[0].1.clone(), &fams[0].0);
-        let mut g = Gen::new(Alphabet::plain(ctx.nprops(), 3));
+        let mut g = Gen::new(Alphabet::all_ops(ctx.nprops(), 3));
         let mut fs = g.closed_up_to(m);
         fs.extend(templates(&ctx.user, true, pool));
         let mut ge = Gen::new(Alphabet::extended(1, 2, 1, 1));
